@@ -806,6 +806,69 @@ func corpus() []rescorr.Case {
 			`submodule s1 { belongs-to m { prefix m; } include s2; container from-s1 { leaf l { type string; } } }`,
 			`submodule s2 { belongs-to m { prefix m; } import a { prefix a; } container from-s2 { leaf l { type string; } }
 			   augment "/a:c" { leaf grafted { type string; } container box { leaf deep { type string; } } } }`),
+		// names coinciding along a path across modules: an explicit case tcp of module a holding a's
+		// nodes, module b grafting a container tcp into it (the case and a's nodes stay a's)
+		mk(`a /a urn:a a
+			a /a/c urn:a a
+			a /a/c/transport urn:a a
+			a /a/c/transport/tcp urn:a a
+			a /a/c/transport/tcp/port urn:a a
+			a /a/c/transport/tcp/opts urn:a a cfg=false
+			a /a/c/transport/tcp/opts/nodelay urn:a a
+			a /a/c/transport/tcp/tcp urn:b b
+			a /a/c/transport/tcp/tcp/keepalive urn:b b
+			a /a/c/transport/udp urn:a a
+			a /a/c/transport/udp/uport urn:a a
+			b /b urn:b b`,
+			`module a { namespace "urn:a"; prefix a; container c { choice transport {
+			   case tcp { leaf port { type string; } container opts { config false; leaf nodelay { type string; } } }
+			   case udp { leaf uport { type string; } } } } }`,
+			`module b { namespace "urn:b"; prefix b; import a { prefix a; }
+			   augment "/a:c/a:transport/a:tcp" { container tcp { leaf keepalive { type string; } } } }`),
+		// one name three times (choice x / case x / grafted leaf x), a container x holding a grafted
+		// container x holding a leaf x grafted by a third module, a grafted leaf named like the
+		// target's parent, grafted nodes named like the augmenting module and like its prefix, and a
+		// shorthand member x of a choice with a grafted leaf x inside (implied case x around it)
+		mk(`a /a urn:a a
+			a /a/x urn:a a
+			a /a/x/x urn:a a
+			a /a/x/x/own urn:a a
+			a /a/x/x/deep urn:a a
+			a /a/x/x/deep/x urn:a a
+			a /a/x/x/x urn:b b
+			a /a/p urn:a a
+			a /a/p/x urn:a a
+			a /a/p/x/own urn:a a
+			a /a/p/x/in urn:a a
+			a /a/p/x/in/x urn:a a
+			a /a/p/x/x urn:b b cfg=false
+			a /a/p/x/x/bl urn:b b
+			a /a/p/x/x/x urn:c c
+			a /a/p/x/p urn:b b
+			a /a/p/x/b urn:b b
+			a /a/p/x/pb urn:b b
+			a /a/p/x/pb/pb urn:b b
+			a /a/s urn:a a
+			a /a/s/x -
+			a /a/s/x/x urn:a a
+			a /a/s/x/x/own urn:a a
+			a /a/s/x/x/x urn:c c
+			a /a/s/s -
+			a /a/s/s/s urn:c c
+			a /a/s/s/s/s urn:c c
+			b /b urn:b b
+			c /c urn:c c`,
+			`module a { namespace "urn:a"; prefix a;
+			   choice x { case x { leaf own { type string; } container deep { leaf x { type string; } } } }
+			   container p { container x { leaf own { type string; } container in { leaf x { type string; } } } }
+			   choice s { container x { leaf own { type string; } } } }`,
+			`module b { namespace "urn:b"; prefix pb; import a { prefix a; }
+			   augment "/a:x/a:x" { leaf x { type string; } }
+			   augment "/a:p/a:x" { container x { config false; leaf bl { type string; } } leaf p { type string; } leaf b { type string; } container pb { leaf pb { type string; } } } }`,
+			`module c { namespace "urn:c"; prefix c; import a { prefix a; }
+			   augment "/a:p/a:x/a:x" { leaf x { type string; } }
+			   augment "/a:s/a:x" { leaf x { type string; } }
+			   augment "/a:s" { container s { leaf s { type string; } } } }`),
 		// augment from a submodule into another module, and into its own module
 		mk(`a /a urn:a a
 			a /a/c urn:a a
@@ -907,7 +970,7 @@ func main() {
 	mkCase := func(i int) (rescorr.Case, bool) {
 		if i < nA {
 			twin := i%6 == 4
-			s := gen.GenerateC12(f.Rand(i), gen.C12Opts{OpsConfigRate: 0.12, TwoRevisions: i%8 == 7, SharedAction: i%10 == 3, TwinNS: twin})
+			s := gen.GenerateC12(f.Rand(i), gen.C12Opts{OpsConfigRate: 0.12, TwoRevisions: i%8 == 7, SharedAction: i%10 == 3, TwinNS: twin, Coincide: i%7 == 5})
 			names, texts := s.Set.FilesRev()
 			c := rescorr.Case{Names: names, Texts: texts, Extra: map[string]string{}}
 			if s.Expect != nil {
@@ -917,7 +980,7 @@ func main() {
 			}
 			// second pass on a fresh value with every question in the opposite order: all sets with
 			// near-twin namespaces, every fourth of the others
-			if twin || i%4 == 1 {
+			if twin || i%4 == 1 || i%21 == 5 {
 				c.Extra["reverse"] = "1"
 			}
 			for k, v := range s.Feat {
@@ -1010,7 +1073,7 @@ func main() {
 	}
 	res.Evaluations = total
 	res.DistinctNontrivial = distinct.Len()
-	res.Rule = "module sets: a hand-written corpus (D39, D40, grouping across modules with action, augment from a submodule), then seeded sets of harness/gen/c12.go (1-4 modules, 0-2 submodules each incl. nested include, globally unique groupings used across modules/submodules and inside each other, config statements at every depth on leaf/leaf-list/container/list/choice/anydata, choice/case with shorthand members, rpc/action/notification with config inside them at a low rate, augments from modules and submodules into own and imported modules incl. chains, shorthand choice members, written and unwritten rpc input/output, paths with and without implied-case steps; every 8th set additionally loads an older revision of one module; every 6th set gives two or three modules near-twin namespaces - letter case, trailing slash or blank, prefix, percent-encoding, K vs KELVIN SIGN - and lets each place nodes in its own tree, through the other's grouping and by augments into a third module) with the generator's provenance table, then sets of the shared generator gen.Generate (deviations included) without a table; on every set FindModuleByNamespace is also asked directly for every declared namespace and for near-twin spellings nobody declares, and for all near-twin sets and every fourth other set all questions are asked again in reverse order on a freshly loaded and processed value; every set is examined on all module trees and on the own trees of all submodules (incl. submodules that include other submodules); distinct_nontrivial = distinct sets (by text) that process without errors and contain at least one read-only node or one node whose namespace differs from its tree's module"
+	res.Rule = "module sets: a hand-written corpus (D39, D40, grouping across modules with action, augment from a submodule), then seeded sets of harness/gen/c12.go (1-4 modules, 0-2 submodules each incl. nested include, globally unique groupings used across modules/submodules and inside each other, config statements at every depth on leaf/leaf-list/container/list/choice/anydata, choice/case with shorthand members, rpc/action/notification with config inside them at a low rate, augments from modules and submodules into own and imported modules incl. chains, shorthand choice members, written and unwritten rpc input/output, paths with and without implied-case steps; every 8th set additionally loads an older revision of one module; every 6th set gives two or three modules near-twin namespaces - letter case, trailing slash or blank, prefix, percent-encoding, K vs KELVIN SIGN - and lets each place nodes in its own tree, through the other's grouping and by augments into a third module; every 7th set plants 2-4 places where names coincide along a path across modules - an explicit case / container / list / shorthand choice member / choice written by one module with its own nodes at several depths below, into which another module grafts a container, leaf, list, leaf-list, choice or case named like the target, like the target's parent, like the top-level ancestor, like the augmenting module or its prefix, sometimes followed by a graft from a third module into the grafted node, and its generic augments draw their body names from the names on the target's path) with the generator's provenance table, then sets of the shared generator gen.Generate (deviations included) without a table; on every set FindModuleByNamespace is also asked directly for every declared namespace and for near-twin spellings nobody declares, and for all near-twin sets and every fourth other set all questions are asked again in reverse order on a freshly loaded and processed value; every set is examined on all module trees and on the own trees of all submodules (incl. submodules that include other submodules); distinct_nontrivial = distinct sets (by text) that process without errors and contain at least one read-only node or one node whose namespace differs from its tree's module"
 	res.Distribution["clean_sets"] = clean
 	res.Distribution["clean_sets_with_provenance_table"] = cleanA
 	res.Distribution["sets_with_errors"] = withErr
